@@ -19,8 +19,9 @@ from typing import Dict, List
 
 from ..front_py import AnalysisError, walk_local, norm, dotted
 from ..effects import Unsupported
+from ..dataflow import Provenance
 from ..front_lark import Grammar, mini_schema
-from .codec_py import (ENC, DEC, find_cursor_class, Prims, parser_type_classes, find_dispatcher, grammar_of, canon_effects, CANON, CANON_DEC)
+from .codec_py import (ENC, DEC, find_cursor_class, Prims, parser_type_classes, find_dispatcher, grammar_of, canon_effects, CANON, CANON_DEC, dispatcher_bypasses)
 from .C01 import r015
 
 
@@ -63,6 +64,9 @@ def run(eng, rep) -> None:
             except Unsupported as u:
                 rep.undecided("R02.1", d.file, d.qual, "Eff_%s(%s)" % (side, kn), str(u))
                 continue
+            if dispatcher_bypasses(effs):
+                rep.undecided("R02.1", d.file, d.qual, "Eff_%s(%s)" % (side, kn), "handler reads/writes elements directly for some element classes (dispatcher bypass): [%s]; value effect decided by C01 R01.8" % g[:120])
+                continue
             rep.check(g == want, "R02.1", d.file, d.qual, "Eff_%s(%s)" % (side, kn), "= canonical %s" % want, "%s performs [%s], canonical wire format is [%s]" % ("encoder" if side == "enc" else "decoder", g, want))
     for v, tag, m, construct, detail in pr.findings:
         if tag == "bitmap":
@@ -99,8 +103,17 @@ def r024(eng, rep, pr: Prims) -> None:
                 for side in (n.left, n.right):
                     if any(isinstance(x, ast.Name) and x.id == bits for x in ast.walk(side)) and ("<<" in norm(side) or "**" in norm(side)):
                         masked = True
+        prov = Provenance(m.node)
+        # callers that already reduce the value to the width (value & mask / value % 2**bits) make the
+        # write safe whatever the method does
+        callers = [cs for cs in eng.cg.callers_of(m.qual)]
+        def arg_masked(cs):
+            a = cs.node.args[0] if cs.node.args else None
+            return isinstance(a, ast.BinOp) and isinstance(a.op, (ast.BitAnd, ast.Mod))
+        if callers and all(arg_masked(cs) for cs in callers):
+            masked = True
         for w in writes:
-            uses_word = any(isinstance(x, ast.Name) and x.id == word for x in ast.walk(w.value))
+            uses_word = any(isinstance(x, ast.Name) and x.id == word for x in ast.walk(w.value)) or any(a == word or a.startswith(word + ".") or a.startswith(word + "[") for a in prov.of(w.value))
             if uses_word and not masked:
                 rep.violation("R02.4", m.file, m.qual, norm(w, 70), "the value is merged into the store without being masked to `%s` bits: a negative (sign-extended) or out-of-range value sets bits of the following field / the padding" % bits)
             elif uses_word:
